@@ -1030,16 +1030,21 @@ def atomic_copies(ctx: Ctx) -> None:
         if np.linalg.det(q) < 0:
             q[:, 0] *= -1
         return q
-    for _ in range(ctx.scale(6, 30)):
+    for it in range(ctx.scale(6, 30)):
         n = rng.choice([18, 24, 30])
         labels = (["C", "C", "O"] * 10)[:n] if rng.random() < 0.5 else [rng.choice(["Au", "Ag"]) for _ in range(n)]
         structures = [ball(n), ball(n)]
-        energies = [-101.25, -97.5]
-        sim = MolecularSimilarity(0.1, 0.05)
+        # the energy zero is arbitrary (total electronic energies are of order -5e4): the criterion is an absolute
+        # difference, so the same geometry 6 criteria higher is a different stationary point at every magnitude
+        base = [-101.25, -54321.0, 2.5e5][it % 3]
+        ec = 0.05
+        classes = [(0, base), (1, base + 3.75), (0, base + 6 * ec)]
+        sim = MolecularSimilarity(0.1, ec)
         k = KineticTransitionNetwork()
         coords = AtomicCoordinates(labels, structures[0].flatten().copy())
         offers = []
-        for si in (0, 1, 0, 1, 0):
+        for ci in (0, 1, 0, 2, 1, 0, 2):
+            si, energy = classes[ci]
             perm = list(range(n))
             for sp in set(labels):
                 idx = [i for i in range(n) if labels[i] == sp]
@@ -1047,19 +1052,21 @@ def atomic_copies(ctx: Ctx) -> None:
                 for a, b in zip(idx, sh):
                     perm[a] = b
             x = (structures[si][perm] @ rot().T + np.array([rng.uniform(-2, 2) for _ in range(3)])).flatten()
-            offers.append((si, x))
+            offers.append((ci, x, energy))
         with np.errstate(all="ignore"):
             import warnings
             with warnings.catch_warnings():
                 warnings.simplefilter("ignore")
-                for si, x in offers:
+                for ci, x, energy in offers:
                     coords.position = x.copy()
-                    sim.test_new_minimum(k, coords, energies[si])
-        ctx.stats.case({"stream": "predicate-atomic-copies", "n": n}, True)
-        if k.n_minima != 2:
-            ctx.fail("atomic-copy-stored-again", f"{len(offers)} rotated/translated/like-atom-permuted copies of 2 "
-                     f"distinct {n}-atom structures were offered; {k.n_minima} minima are stored",
-                     {"labels": labels, "offers": [[si, x.tolist()] for si, x in offers]})
+                    sim.test_new_minimum(k, coords, energy)
+        ctx.stats.case({"stream": "predicate-atomic-copies", "n": n, "energy_scale": abs(base)}, True)
+        if k.n_minima != 3:
+            ctx.fail("atomic-copy-stored-again" if k.n_minima > 3 else "atomic-distinct-not-stored",
+                     f"{len(offers)} rotated/translated/like-atom-permuted copies of 3 distinct stationary points "
+                     f"({n} atoms: two geometries, one of them at two energies {6 * ec} apart, criterion {ec}, energies "
+                     f"near {base}) were offered; {k.n_minima} minima are stored",
+                     {"labels": labels, "offers": [[ci, x.tolist(), energy] for ci, x, energy in offers]})
             return
 
 
